@@ -23,7 +23,7 @@ from . import tlc
 CHUNK = 1500
 
 
-def _run(area, module, cfg, traces, idxs, progress=False, workers=4, timeout=900):
+def _run(area, module, cfg, traces, idxs, progress=False, workers=4, timeout=900, env=None):
     os.makedirs(tlc.BUILD, exist_ok=True)
     fd, path = tempfile.mkstemp(prefix="traces-", suffix=".json", dir=tlc.BUILD)
     try:
@@ -34,7 +34,7 @@ def _run(area, module, cfg, traces, idxs, progress=False, workers=4, timeout=900
             module,
             cfg,
             workers=workers,
-            env={"TRACE_FILE": path, "TRACE_PROGRESS": "1" if progress else "0"},
+            env=dict(env or {}, TRACE_FILE=path, TRACE_PROGRESS="1" if progress else "0"),
             timeout=timeout,
             collect=("ACCEPT", "AT"),
             heap="6g",
@@ -65,7 +65,7 @@ def _run(area, module, cfg, traces, idxs, progress=False, workers=4, timeout=900
 
 
 class Validator:
-    def __init__(self, area, module, strict_cfg, loose_cfg, max_findings=3, chunk=CHUNK, parallel=2, workers=4):
+    def __init__(self, area, module, strict_cfg, loose_cfg, max_findings=3, chunk=CHUNK, parallel=2, workers=4, env=None):
         self.area = area
         self.module = module
         self.strict_cfg = strict_cfg
@@ -74,6 +74,7 @@ class Validator:
         self.chunk = chunk
         self.parallel = parallel
         self.workers = workers
+        self.env = env
         self.tlc_results = []  # (what, TLCResult)
 
     def _sweep(self, cfg, traces, idxs, out, findings_left):
@@ -84,7 +85,7 @@ class Validator:
         vio = []
         chunks = [idxs[a : a + self.chunk] for a in range(0, len(idxs), self.chunk)]
         with ThreadPoolExecutor(self.parallel) as pool:
-            first = list(pool.map(lambda c: _run(self.area, self.module, cfg, traces, c, workers=self.workers), chunks))
+            first = list(pool.map(lambda c: _run(self.area, self.module, cfg, traces, c, workers=self.workers, env=self.env), chunks))
         for chunk, res in zip(chunks, first):
             while True:
                 r, acc, _, bad = res
@@ -98,7 +99,7 @@ class Validator:
                 chunk = [i for i in chunk if i != bad[0]]
                 if not chunk:
                     break
-                res = _run(self.area, self.module, cfg, traces, chunk, workers=self.workers)
+                res = _run(self.area, self.module, cfg, traces, chunk, workers=self.workers, env=self.env)
         return accepted, vio, False
 
     def validate(self, traces):
@@ -127,7 +128,7 @@ class Validator:
                 if i in lacc:
                     # where did strict stop?  (only for the first few: one JVM each)
                     if sum(1 for v in verdicts.values() if v[0] == "drift") < 3:
-                        _, _, reached, _ = _run(self.area, self.module, self.strict_cfg, traces, [i], progress=True, workers=1)
+                        _, _, reached, _ = _run(self.area, self.module, self.strict_cfg, traces, [i], progress=True, workers=1, env=self.env)
                         verdicts[i] = ("drift", reached.get(i, 0))
                     else:
                         verdicts[i] = ("drift", -1)
